@@ -270,10 +270,13 @@ def _field_may_have_null_byte_order(field, type_definition, ir):
     ):
         return True
     unit = type_definition.addressable_unit
-    # Otherwise, if the field's type is either a one-unit-sized type or an array
-    # of a one-unit-sized type, then byte order does not matter.
+    # Otherwise, if the field's type is an array of a one-unit-sized type, then
+    # byte order does not matter.  (A one-unit-sized type that is not an array
+    # element -- an anonymous `bits` that declares only 8 bits -- still occupies,
+    # and is read as, the whole multi-unit field.)
     if (
-        ir_util.fixed_size_of_type_in_bits(ir_util.get_base_type(field.type), ir)
+        field.type.has_field("array_type")
+        and ir_util.fixed_size_of_type_in_bits(ir_util.get_base_type(field.type), ir)
         == unit
     ):
         return True
